@@ -210,6 +210,13 @@ func (e *Engine) constTable(x *Exec, o *types.Var) (Value, bool) {
 }
 
 func findConstTable(p *packages.Package, o *types.Var) (ast.Expr, bool) {
+	return findGlobalInit(p, o, false)
+}
+
+// findGlobalInit: the initialiser of a package-level variable and whether the
+// variable is never assigned (or has its address taken) anywhere in its
+// package. With anyInit the initialiser may be any expression.
+func findGlobalInit(p *packages.Package, o *types.Var, anyInit bool) (ast.Expr, bool) {
 	var init ast.Expr
 	for _, f := range p.Syntax {
 		for _, d := range f.Decls {
@@ -230,7 +237,7 @@ func findConstTable(p *packages.Package, o *types.Var) (ast.Expr, bool) {
 	if init == nil {
 		return nil, false
 	}
-	if _, ok := unparen(init).(*ast.CompositeLit); !ok {
+	if _, ok := unparen(init).(*ast.CompositeLit); !ok && !anyInit {
 		// other initialisers are accepted when they contain no call other
 		// than len/cap and conversions (evaluated like any expression)
 		pure := true
